@@ -8,7 +8,7 @@ RULE = ("random histories of gate updates (OutputStream updates with 0-4 message
         "EndOfStream updates, run through the real file-out loop (all three formats, both ways of ending) and the real "
         "mqtt-out runner (random component names, topic templates with zero to several and partial {id} placeholders, "
         "calls on the shared ingress register BETWEEN the messages: new ingresses, ids registered without an entry, update_info of "
-        "single fields and of several on known, unknown and never registered ids, a third of the cases concentrating on two ids; "
+        "single fields and of several on known, unknown and never registered ids, nearly half of the cases concentrating on two ids; "
         "reconfigurations of template and QoS); a file case is non-trivial when the file has at least two lines and the history mixes "
         "output-stream updates with other updates or has several of them; an mqtt case when at least one message is "
         "published and at least one is not addressed to the target; distinct = distinct case text")
@@ -20,7 +20,8 @@ TRUSTED_BASE = [
     "harness parse-back of every line / payload (serde_json, csv) to a canonical record token, incl. its conventions for csv "
     "(no field names: bare number < 1000 = MED, >= 1000 = LOCAL_PREF)",
     "modelled, not verified: src/targets/file/target.rs (OutputStream arm of the run loop), src/targets/mqtt/target.rs "
-    "(output_stream_message_to_msg, direct_update, publish arm); NOT modelled, only exercised: the bytes serde_json/csv print "
+    "(output_stream_message_to_msg, direct_update, publish arm, reconfigure), src/ingress.rs (Register::get/update_info as the shared "
+    "state mqtt-out reads; the same model as C14's, proved equivalent: C17_register_is_the_C14_register); NOT modelled, only exercised: the bytes serde_json/csv print "
     "(roto_runtime/types.rs and payload.rs Serialize impls), tokio, BufWriter, the gate",
 ]
 ASSUMPTIONS = [
@@ -33,6 +34,12 @@ ASSUMPTIONS = [
     "mqtt: after the publish queue is drained). Updates still queued when Terminate arrives are discarded by both targets (select prefers the command); "
     "that shutdown race is outside the model",
     "mqtt: the order of direct_update calls is the emission order (one gate, sequential sender)",
+    "mqtt: the register and the configuration change BETWEEN direct_update calls (the harness calls update_info between gate updates, as an "
+    "ingress unit does before it emits; Gate::update_data awaits direct_update, so the emission is the moment of the lookup). An update_info "
+    "racing with one direct_update call from another thread is ordered by the register's RwLock either before or after each get; that race is not exercised",
+    "mqtt: a Reconfigure is exercised at quiet moments only (the harness waits until everything emitted so far is published, sends the command, and "
+    "waits until the target has handled it). That a message still queued at that moment keeps its topic and gets the new QoS is what the model says "
+    "(and the code: topic fixed in direct_update, QoS read in the publish arm); it is proved about the model, not exercised",
 ]
 
 LETTERS = [ord(c) for c in "abcdefghijklmnopqrstvwxyzABCXYZ"]          # no 'u': the text "null" would parse as a record
@@ -115,7 +122,7 @@ def info_fields(rng, single=False):
 
 def register_op(rng, ids=4):
     """a call of an ingress unit on the shared register"""
-    k = rng.weighted([("ing", 25), ("reg", 15), ("G1", 40), ("G", 20)])
+    k = rng.weighted([("ing", 25), ("reg", 15), ("G1", 40), ("G", 20)] if ids > 2 else [("ing", 8), ("reg", 7), ("G1", 55), ("G", 30)])
     if k == "ing":
         return "ing " + info_fields(rng)
     if k == "reg":
@@ -169,7 +176,9 @@ TPL_PIECES = ["114.111.116.111.110.100.97.47", "123.105.100.125", "123", "105.10
 
 def gen_mqtt_case(rng, defects):
     ops = []
-    name = rng.choice([0, 0, 0, 0, 0, 0, 1, 3, 4])
+    # nearly half of the cases concentrate on one or two ingress ids whose entry keeps changing between their messages
+    focus = rng.chance(45)
+    name = rng.choice([0, 0, 0, 0, 0, 0, 0, 0, 1, 4] if focus else [0, 0, 0, 0, 0, 0, 1, 3, 4])
     if name or rng.chance(30):
         ops.append("name %d" % name)
     if rng.chance(55):
@@ -182,9 +191,7 @@ def gen_mqtt_case(rng, defects):
     names = [name, name, 0, 1, 2, 3, 4]
     for _ in range(rng.weighted([(0, 35), (1, 35), (2, 30)])):
         ops.append("reg" if rng.chance(25) else "ing " + info_fields(rng))
-    # a third of the cases concentrate on one or two ingress ids whose entry keeps changing
-    focus = rng.chance(35)
-    for _ in range(rng.range(1, 9) if focus else rng.range(1, 8)):
+    for _ in range(rng.range(4, 12) if focus else rng.range(1, 8)):
         r = rng.below(100)
         if r < (40 if focus else 22):
             ops.append(register_op(rng, 2 if focus else 4))
@@ -395,7 +402,9 @@ EXTRAS = []
 LEVEL_TEXT = ("Theorems over all histories of gate updates for the file-out loop (content = every emitted message once, in order; route traffic "
               "invisible; later messages unaffected; lines per message; exact line count; one parse-back line per message for newline-free texts and "
               "csv-representable routes, shown false otherwise) and over all interleavings of updates, publish-loop steps, registrations and client "
-              "hand-overs for mqtt-out (exactly the addressed messages once, in order, when the loop publishes with a client; shown false otherwise; "
+              "hand-overs, update_info calls on the shared ingress register and reconfigurations for mqtt-out (exactly the addressed messages once, "
+              "in order, when the loop publishes with a client; shown false otherwise; every published message, in every history, carries the ingress "
+              "metadata and topic template of the moment it was emitted, never an older copy; register entry = merge of the update_info calls of that id; "
               "selection = name equality; topic template substitution), kernel-checked, axiom-free; model tied to src/targets/{file,mqtt}/target.rs by "
               "differential execution through the real run loops on every run. PARTIAL: serde/csv rendering is exercised (every line and payload "
               "parsed back), not proved.")
